@@ -53,10 +53,11 @@ type Opts struct {
 	Shard int    `json:"shard"`
 	Batch int    `json:"batch"`
 	Zstd  int    `json:"zstd"`
+	Salt  string `json:"salt,omitempty"` // non-empty: scrub=full with this salt
 }
 
 var graphNames = []string{"default", "g one", "grüße/π.x", "a.b", "UPPER lower", "x%2Fy", "..dots..", "名前"}
-var kindPool = []string{"User", "Computer", "Group", "Ünï", "A B"}
+var kindPool = []string{"User", "Computer", "Group", "Ünï", "A B", "Tier,Zero", "Tier", "Zero", "A|B", "A", "B", "x:y", "x", "y"}
 var relKinds = []string{"MemberOf", "AdminTo", "Has Session", "É"}
 var keyPool = []string{"name", "objectid", "n", "flag", "list", "nested", "ключ", "with space", "<html>&"}
 
@@ -117,8 +118,12 @@ func GenDB(r *rand.Rand, maxGraphs, maxNodes, maxRels int) DBSpec {
 		if r.IntN(5) == 0 {
 			id = 1 << 33
 		}
+		zeroFirst := r.IntN(4) == 0 // ids start at 0 (Neo4j issues id 0)
 		for i := 0; i < nn; i++ {
 			id += 1 + uint64(r.IntN(4))
+			if i == 0 && zeroFirst {
+				id = 0
+			}
 			n := NodeSpec{ID: id, Props: genProps(r)}
 			for k := 0; k < r.IntN(4); k++ {
 				kd := kindPool[r.IntN(len(kindPool))]
@@ -137,8 +142,12 @@ func GenDB(r *rand.Rand, maxGraphs, maxNodes, maxRels int) DBSpec {
 		if nn > 0 {
 			ne := r.IntN(maxRels + 1)
 			rid := uint64(r.IntN(5))
+			zeroRel := r.IntN(4) == 0
 			for i := 0; i < ne; i++ {
 				rid += 1 + uint64(r.IntN(3))
+				if i == 0 && zeroRel {
+					rid = 0
+				}
 				gs.Rels = append(gs.Rels, RelSpec{ID: rid, Start: gs.Nodes[r.IntN(nn)].ID, End: gs.Nodes[r.IntN(nn)].ID,
 					Kind: relKinds[r.IntN(len(relKinds))], Props: genProps(r)})
 			}
@@ -236,7 +245,40 @@ func DumpOptions(dir string, o Opts) retriever.DumpOptions {
 		d.ZstdLevel = o.Zstd
 	}
 	d.ProgressInterval = 0
+	if o.Salt != "" {
+		d.Scrub, d.Salt = retriever.ScrubFull, o.Salt
+	}
 	return d
+}
+
+// SpecFromDB reads a database back into a specification (graphs in the given order).
+func SpecFromDB(db *simdb.DB, names []string) DBSpec {
+	var spec DBSpec
+	for _, name := range names {
+		gs := GraphSpec{Name: name}
+		if db.HasGraph(name) {
+			g := db.Graph(name)
+			for _, n := range g.Nodes {
+				gs.Nodes = append(gs.Nodes, NodeSpec{ID: uint64(n.ID), Kinds: append([]string{}, n.Kinds...), Props: n.Props})
+			}
+			for _, r := range g.Rels {
+				gs.Rels = append(gs.Rels, RelSpec{ID: uint64(r.ID), Start: uint64(r.Start), End: uint64(r.End), Kind: r.Kind, Props: r.Props})
+			}
+		}
+		spec.Graphs = append(spec.Graphs, gs)
+	}
+	return spec
+}
+
+// LoadSpec loads a dump directory into a fresh database and reads it back as a specification.
+func LoadSpec(dir string, names []string) (DBSpec, error) {
+	dst := NewTarget()
+	lo := retriever.DefaultLoadOptions(dir)
+	lo.BatchSize, lo.ProgressInterval = 3, 0
+	if _, err := retriever.Load(context.Background(), dst, "simdb", lo); err != nil {
+		return DBSpec{}, err
+	}
+	return SpecFromDB(dst, names), nil
 }
 
 func canon(v any) string {
